@@ -23,7 +23,7 @@ import (
 	_syscall "syscall"
 	_tabwriter "text/tabwriter"
 	_time "time"
-	{{range .Imports}}{{.UniqueName}} "{{.Path}}"
+	{{range .Imports}}{{if .Info.Funcs}}{{.UniqueName}}{{else}}_{{end}} "{{.Path}}"
 	{{end}}
 )
 
